@@ -299,6 +299,27 @@ pub fn gen_strtab(rng: &mut Rng, n: usize, thorough: bool) -> Vec<Case> {
             }
         }
     }
+    // magnitudes: a NUL-free run whose length sits on either side of a power of two (a scan window, a length narrowed to
+    // 8/16 bits, a chunked search) — the run starts at offset 1 and at a late offset, terminated and unterminated
+    let mut runs: Vec<usize> = vec![255, 256, 257, 4095, 4096, 4097, 65534, 65535, 65536, 65537];
+    if thorough { runs.extend([131071, 131072, 131073, 1 << 20]); }
+    for run in runs {
+        for terminated in [true, false] {
+            let mut t = vec![0u8];
+            t.extend((0..run).map(|i| b'a' + (i % 23) as u8));
+            if terminated { t.push(0); t.extend(b"tail\0"); }
+            for off in [1usize, 2, run / 2, run.saturating_sub(1), run, run + 1] {
+                out.push((format!("strtab {} {}", off.min(t.len() + 1), hex(&t)), "magnitude".into()));
+            }
+        }
+    }
+    // offsets beyond 32 bits whose low half lies inside the table
+    {
+        let t = b"\0first\0second\0third\0".to_vec();
+        for off in [1u64 << 32, (1 << 32) + 1, (1 << 32) + 7, (1 << 33) + 8, (1 << 48) + 1, (1u64 << 63) + 1, (1 << 16) + 1, (1 << 8) + 1] {
+            out.push((format!("strtab {} {}", off, hex(&t)), "magnitude".into()));
+        }
+    }
     for _ in 0..n {
         let len = match rng.below(4) { 0 => rng.below(4096), _ => rng.below(40) } as usize;
         let mut t: Vec<u8> = (0..len)
@@ -438,6 +459,21 @@ pub fn gen_acc(rng: &mut Rng, _n: usize, thorough: bool) -> Vec<Case> {
     }
     for shndx in [0u32, 1, 0xff00, 0xfff1, 0xffff] {
         out.push((format!("acc sym 0 0 {}", shndx), "-".into()));
+    }
+    // the derived accessors are functions of the fields the ABI macros name and of nothing else: every other field
+    // of the record varies too (an undefined symbol may well carry a value — a PLT address — a size or a name)
+    for shndx in [0u64, 0, 1, 0xfff1, 0xffff, rng.below(0x10000)] {
+        for value in [0u64, 1, 0x401020, u64::MAX, rng.next()] {
+            for size in [0u64, 8, rng.next()] {
+                let name = if rng.chance(1, 2) { 0 } else { rng.below(1 << 32) };
+                out.push((format!("acc symf {} {} {} {} {} {}", name, shndx, rng.below(256), rng.below(256), value, size), "-".into()));
+            }
+        }
+    }
+    for _ in 0..(if thorough { 4000 } else { 400 }) {
+        let f = |rng: &mut Rng, w: usize| field_value(rng, w);
+        let (name, shndx, info, other, value, size) = (f(rng, 4), if rng.chance(1, 3) { 0 } else { f(rng, 2) }, f(rng, 1), f(rng, 1), f(rng, 8), f(rng, 8));
+        out.push((format!("acc symf {} {} {} {} {} {}", name, shndx, info, other, value, size), "-".into()));
     }
     out
 }
